@@ -20,7 +20,9 @@ RULE = (
     "X < X_unloc_1 < X_unloc_2 < next(X) for autosome names <prefix>k, and any rank-1 before rank-2 before rank-3 "
     "whatever the names. Sub-check small_scope: ALL names of length <= 4 over {I,V,X,0,1,2,_,a} (4680 names) keyed, sorted "
     "as one set in two orders and compared pairwise against the numeric relations (complete for that alphabet). "
-    "Non-trivial = a set containing a numeral run of length >= 2 or numbers with different digit counts; distinct by SHA-1."
+    "Sub-check history: the same scaffold objects are sorted, renamed (the pipeline's provisional-name -> chromosome-name "
+    "pattern and arbitrary names) and sorted again, 2-3 rounds; each order must equal that of fresh scaffolds carrying the "
+    "current names. Non-trivial = a set containing a numeral run of length >= 2 or numbers with different digit counts; distinct by SHA-1."
 )
 ASSUMPTIONS = ["names with equal keys (leading zeros) may come out in either order; only the key sequence is compared"]
 
@@ -117,6 +119,28 @@ def body_numeric(case, rec):
         raise Violation(f"key({lo!r}) is not below key({hi!r})")
 
 
+def body_history(case, rec):
+    """sort, rename the same scaffold objects, sort again: the order must depend on the current names only"""
+    rounds = case["rounds"]
+    rec.note(case, len(rounds) >= 2 and any(nontrivial_names(r) for r in rounds), {"rounds_%d" % len(rounds)})
+    asm = Assembly("a")
+    for n in rounds[0]:
+        asm.add_scaffold(Scaffold(n, rank=1))
+    for k, names in enumerate(rounds):
+        for s, n in zip(list(asm.scaffolds) if k == 0 else objs, names):
+            s.name = n
+        if k == 0:
+            objs = list(asm.scaffolds)
+        got = [s.name for s in must(asm.scaffolds_sorted_by_name, what="scaffolds_sorted_by_name")]
+        must(asm.smart_sort_scaffolds, what="smart_sort_scaffolds")
+        got2 = [s.name for s in asm.scaffolds]
+        fresh = sort_names(list(names))
+        if [key(n) for n in got] != [key(n) for n in fresh]:
+            raise Violation(f"round {k + 1}: scaffolds renamed to {names} sort as {got}; fresh scaffolds with these names sort as {fresh}")
+        if [key(n) for n in got2] != [key(n) for n in fresh]:
+            raise Violation(f"round {k + 1}: smart sort after renaming gives {got2}; fresh scaffolds sort as {fresh}")
+
+
 ALPHA = "IVX012_a"
 
 
@@ -192,11 +216,29 @@ def numeric_cases(draw):
     return case
 
 
+@st.composite
+def history_cases(draw):
+    n = draw(st.integers(2, 8))
+    style = draw(st.integers(0, 1))
+    rounds = []
+    for _ in range(draw(st.integers(2, 3))):
+        if style == 0:
+            # the pipeline's pattern: provisional Pretext names, then chromosome names by size
+            pre = draw(st.sampled_from(["Scaffold_", "SUPER_", "scaffold_", "chr"]))
+            nums = draw(st.permutations(range(1, n + 1)))
+            rounds.append([f"{pre}{k}" for k in nums])
+        else:
+            rounds.append([draw(name()) for _ in range(n)])
+    return {"rounds": rounds}
+
+
 SUBS = [
     Sub("sets", kind="hyp", strategy=set_cases, body=body_sets,
         budget={"quick": 24000, "thorough": 500000}, desc="name sets x two permutations: never raises, same key sequence, rank first"),
     Sub("numeric", kind="hyp", strategy=numeric_cases, body=body_numeric,
         budget={"quick": 8000, "thorough": 100000}, desc="metamorphic: decimal value order, I<II<III<IV, unlocs after their chromosome, rank before name"),
+    Sub("history", kind="hyp", strategy=history_cases, body=body_history,
+        budget={"quick": 6000, "thorough": 100000}, desc="sort / rename the same scaffold objects / sort again: order depends on current names only"),
     Sub("small_scope", kind="enum", cases=small_scope_cases, body=body_small, exhaustive=True,
         budget={"quick": 1, "thorough": 1}, desc="all 4680 names of length <= 4 over {I,V,X,0,1,2,_,a}"),
 ]
